@@ -286,8 +286,8 @@ impl Check for C08 {
 
     fn runs(&self, tier: Tier) -> u64 {
         match tier {
-            Tier::Quick => MATRICES_QUICK + 300_000,
-            Tier::Thorough => MATRICES_THOROUGH + 30_000_000,
+            Tier::Quick => MATRICES_QUICK + 2_000_000,
+            Tier::Thorough => MATRICES_THOROUGH + 200_000_000,
         }
     }
 
